@@ -508,6 +508,7 @@ pub fn run_c02(run: &mut Run) -> PResult {
     run.rule = "every 6-card subset and (quick: a seeded 1-in-8 stratum of / thorough: every) 7-card subset of the deck in canonical (ascending) slot order through all five entry points, plus seeded slot orders per hand, plus random hands under every slot order; expected = min ordinal over all five-subsets (model) which must also equal a direct rule-based n-card evaluation. Non-trivial = the best hand is not simply the first five slots; distinct = distinct subsets".into();
     run.assume("model self-checked: best-hand category frequencies equal the published 6- and 7-card counts whenever the enumeration is complete");
     let thorough = run.tier == Tier::Thorough;
+    super::regress::replay_dir(run, "C02", check_case_c02)?;
     scan::<6, H6>(run, Mode::Value, &ScanCfg { stratum: 1, orders: if thorough { 4 } else { 1 } })?;
     scan::<7, H7>(run, Mode::Value, &ScanCfg { stratum: if thorough { 1 } else { 8 }, orders: if thorough { 4 } else { 1 } })?;
     all_orders::<6, H6>(run, Mode::Value, if thorough { 400_000 } else { 40_000 })?;
@@ -581,6 +582,7 @@ pub fn run_c03(run: &mut Run) -> PResult {
     run.rule = "same hand enumerations as C02, observing the reported five-card hand: validity predicate (five slots, all from the input, pairwise distinct, strictly descending, ranks to the reported value both by the crate and by the model); for five-card inputs (all subsets x all 120 orders) the reported hand must be the input unchanged. Non-trivial = six/seven-card hands whose best hand is not the first five slots, five-card hands in a non-sorted order; distinct = distinct subsets".into();
     run.assume("no claim about which of several equally ranked witnesses is chosen");
     let thorough = run.tier == Tier::Thorough;
+    super::regress::replay_dir(run, "C03", check_case_c03)?;
     // identity clause
     let perms = perms5();
     let acc = par_tuples::<5, A5>(
@@ -747,6 +749,7 @@ pub fn run_c09(run: &mut Run) -> PResult {
     run.rule = "every 6-card subset with its 6 five-card sub-hands and (quick: seeded 1-in-8 stratum / thorough: every) 7-card subset with its 7 six-card sub-hands, all values taken from the crate (memoised by combinatorial rank): v(n) <= v(sub) for every sub-hand and v(n) == min over sub-hands, values in 1..=7462. Non-trivial = hands where adding the last card strictly improves the value of the hand formed by the other cards; distinct = distinct subsets".into();
     run.assume("metamorphic relation only: no poker oracle is used here (C02 carries the rule-based oracle)");
     let thorough = run.tier == Tier::Thorough;
+    super::regress::replay_dir(run, "C09", check_case_c09)?;
     let binom = binom_table();
     let seed = run.seed;
     // memo tables, filled from the crate
